@@ -6,6 +6,7 @@ package main
 import (
 	"fmt"
 	"go/types"
+	"math/big"
 	"strings"
 
 	"golang.org/x/tools/go/ssa"
@@ -102,6 +103,37 @@ func (in *Interp) intrinsic(fn *ssa.Function, args []Val) (Val, bool) {
 			}
 		}
 		return BoolConst(sameRef(rec, want)), true
+	case name == "verifAssertCanBe":
+		// existential obligation: the condition must be satisfiable on this path (e.g. "this
+		// coefficient can be non-zero"); unsat is reported as a failed assertion with a model of the path
+		c := args[0].(*Term)
+		in.asserts++
+		ok := false
+		if c.IsConst {
+			ok = c.C == 1
+		} else {
+			r, _ := in.s.CheckPC(in.pc, []*Term{c}, nil)
+			if r == RUnknown {
+				in.failures = append(in.failures, Failure{Msg: fmt.Sprint(args[1]), Path: in.ex.Trace(), Kind: "assert", Status: "unknown"})
+				return nil, true
+			}
+			ok = r == RSat
+		}
+		if !ok {
+			var want []*Term
+			for _, n := range in.nondets {
+				want = append(want, n.T)
+			}
+			_, vals := in.s.CheckPC(in.pc, nil, want)
+			m := map[string]string{}
+			for i, n := range in.nondets {
+				if i < len(vals) {
+					m[n.Name] = modelValue(vals[i])
+				}
+			}
+			in.failures = append(in.failures, Failure{Msg: fmt.Sprint(args[1]), Model: m, Path: in.ex.Trace(), Kind: "assert", Status: "sat", Chooses: in.ex.Chooses()})
+		}
+		return nil, true
 	case name == "verifCanBe":
 		// existential side condition: records the label iff the condition is satisfiable on this path
 		c := args[0].(*Term)
@@ -142,6 +174,28 @@ func (in *Interp) intrinsic(fn *ssa.Function, args []Val) (Val, bool) {
 		rt := fn.Signature.Results().At(0).Type()
 		z := in.zero(rt).(*ArrayV)
 		return in.frValue(rt, in.cfg.Field.Const(sext(t.C, t.Sort.W), wordW(z))), true
+	case name == "verifDlog":
+		// discrete logarithm of a group element (algebra model), as a field element value
+		arg := args[0]
+		if iv, ok := arg.(IfaceV); ok {
+			arg = iv.V
+		}
+		return in.frValue(fn.Signature.Results().At(0).Type(), in.dlog(arg)), true
+	case name == "verifFIsIntBelow":
+		// the field value is (the image of) an integer in [0, n): algebra model -> is_int and bounds
+		x := in.frRead(args[0])
+		n := args[1].(*Term)
+		if !n.IsConst {
+			panic(abort("unmodelled", "verifFIsIntBelow with a symbolic bound"))
+		}
+		if x.Sort.K == SReal {
+			if x.IsConst {
+				ok := x.Q.IsInt() && x.Q.Sign() >= 0 && x.Q.Num().Cmp(new(big.Int).SetUint64(n.C)) < 0
+				return BoolConst(ok), true
+			}
+			return in.s.And(in.s.app(BoolSort, "is_int", x), in.s.app(BoolSort, "<=", RealInt(0), x), in.s.app(BoolSort, "<", x, RealConst(new(big.Rat).SetInt(new(big.Int).SetUint64(n.C))))), true
+		}
+		return in.s.BVCmp("bvult", x, BVConst(n.C, x.Sort.W)), true
 	case name == "verifFToU64":
 		x := in.frRead(args[0])
 		if _, ok := in.cfg.Field.(gfpModel); ok {
